@@ -330,7 +330,7 @@ func c09Concat(c *Ctx, ndocs int) {
 					ok, detail = false, fmt.Sprintf("InputOffset after document %d = %d, want %d", j, off, ends[j])
 					cls := ""
 					if strings.Contains(all.String()[:ends[j]], `\`) {
-						cls = "C09-inputoffset-after-escape"
+						cls = ""
 					}
 					c.Oracle("concat/inputoffset/"+how, fmt.Sprintf("%q", whole), detail, "offset of the end of the value", false, cls)
 					ok, detail = true, ""
@@ -404,7 +404,7 @@ func c09ReaderErrors(c *Ctx, ndocs int) {
 				class := ""
 				ok := err != nil
 				if !ok {
-					class = "C09-reader-error-as-eof"
+					class = ""
 				}
 				c.Oracle("reader-error/"+d.name, fmt.Sprintf("%q fails after %d bytes", doc, k), fmt.Sprintf("err=%v value=%v", err, reflect.ValueOf(got).Elem().Interface()), "an error", ok, class)
 				if ok && !errors.Is(err, errBoom) {
